@@ -94,13 +94,15 @@ def _run_kind(ctx, spec, rng):
     elif which == 4:
         form = (r // 9) % 3
         if form == 0:  # scalar dimension, k_param over its range (0 = no bound)
-            kp = (r // 27) % (d + 2)
+            kp = int(rng.integers(0, d + 2))
             dimarg = d
             mech = None
         else:
-            da, db = 1 + (r // 27) % 4, 1 + (r // 108) % 4
+            da, db = int(rng.integers(1, 6)), int(rng.integers(1, 6))
+            if form == 1 and min(da, db) < 3:
+                da, db = max(da, 3), max(db, 3) + int(rng.integers(0, 2))
             dimarg = [da, db]
-            kp = (r // 432) % (min(da, db) + 1) if form == 1 else 0
+            kp = int(rng.integers(1, min(da, db))) if form == 1 else int(rng.choice([0, min(da, db), min(da, db) + 1]))
             mech = "crash:random_state_vector[list-dim,k_param-not-binding]" if not (0 < kp < min(da, db)) else None
         v = _call(ctx, tr.random_state_vector, dimarg, real, kp, seed, mech=mech)
         if v is not None:
